@@ -1,7 +1,6 @@
 (* C09, datagram stack: what holds for the machine of Model/ConnD.v for every handshake layer,
-   record protection, replay verdict, clock and datagram sequence; what does not (finding K15: the
-   retry recursion of readRecordOrCCS); and that the bounds fail for the code before fixes
-   1e7de38 (K12), 593205a (K13), 6b259b8 (K14). *)
+   record protection, replay verdict, clock and datagram sequence; and that the bounds fail for
+   the code before fixes 1e7de38 (K12), 593205a (K13), 6b259b8 (K14), bfc7028 (K15). *)
 From V Require Import Model.Codec Model.ConnT Model.Fragment Model.ConnD Proofs.FragmentProofs.
 From Coq Require Import ZArith ZifyNat ZifyN ZifyBool Lia FinFun.
 Open Scope nat_scope.
@@ -48,10 +47,8 @@ Section DInv.
     d_freads c1 = d_freads c /\ d_counted c1 = d_counted c /\ d_want c1 = d_want c /\
     d_hs c1 = d_hs c.
 
-  (* the frame of readRecordOrCCS: the same one, or a new one entered through retryReadRecord *)
+  (* the frame of readRecordOrCCS: nothing in its loop enters another one *)
   Definition same_frame (c c1 : dconn) : Prop := d_entry c1 = d_entry c /\ d_frames c1 = d_frames c.
-  Definition new_frame (c c1 : dconn) : Prop :=
-    d_hand c1 = d_hand c /\ d_entry c1 = length (d_hand c) /\ d_frames c1 = Datatypes.S (d_frames c) /\ d_raw c1 = [].
 
   Definition retry_ok (c : dconn) : Prop := d_retry c <= 17 /\ (d_alive c = true -> d_retry c <= 16).
 
@@ -62,9 +59,7 @@ Section DInv.
 
   Lemma dretry_fields : forall c : dconn, retry_ok c -> d_alive c = true ->
     let c1 := dretry_or_die S c in
-    same_hs c c1 /\ d_hand c1 = d_hand c /\ d_raw c1 = d_raw c /\ retry_ok c1 /\
-    (same_frame c c1 /\ d_alive c1 = false \/
-     d_entry c1 = length (d_hand c) /\ d_frames c1 = Datatypes.S (d_frames c)).
+    same_hs c c1 /\ d_hand c1 = d_hand c /\ d_raw c1 = d_raw c /\ retry_ok c1 /\ same_frame c c1.
   Proof.
     intros c [R1 R2] Ha. specialize (R2 Ha). cbn zeta. unfold dretry_or_die.
     destruct (maxUselessRecords <? Datatypes.S (d_retry c)) eqn:E; unfold same_hs, same_frame, retry_ok; hfields.
@@ -77,7 +72,7 @@ Section DInv.
   Definition sw_ok (data : bytes) (hs_done expect : bool) (c c1 : dconn) : Prop :=
     same_hs c c1 /\ retry_ok c1 /\
     (d_alive c1 = true -> length (d_raw c1) <= length (d_raw c)) /\
-    (d_hand c1 = d_hand c /\ (same_frame c c1 \/ new_frame c c1) \/
+    (d_hand c1 = d_hand c /\ same_frame c c1 \/
      (d_hand c1 = d_hand c ++ data /\ 0 < length data /\ hs_done = false /\ expect = false /\ same_frame c c1 /\ d_alive c1 = true)).
 
   Lemma sw_refl_like : forall dt hs_done expect (c c1 : dconn),
@@ -99,7 +94,7 @@ Section DInv.
   Lemma p_alert_ok : forall hd ex (c : dconn) data, retry_ok c -> d_alive c = true ->
     sw_ok data hd ex c (fst (p_alert S c data)).
   Proof.
-    intros hd ex c data R Ha. unfold p_alert.
+    intros hd ex c data R Ha. unfold p_alert, p_alert_with.
     destruct data as [|lvl [|code [|x t]]]; try (apply sw_kill; exact R).
     destruct (code =? 0)%N; [apply sw_kill; exact R|].
     destruct (lvl =? 1)%N; [|apply sw_kill; exact R].
@@ -112,9 +107,7 @@ Section DInv.
     split; [exact F4|].
     split; [intros _; rewrite F3; cbn; lia|].
     left. split; [exact F2|].
-    destruct F5 as [[F5 _]|[F5 F6]].
-    - left. unfold same_frame in *. hfields. exact F5.
-    - right. unfold new_frame. hfields. auto.
+    unfold same_frame in *. hfields. exact F5.
   Qed.
 
   Lemma p_ccs_ok : forall hd ex (c : dconn) data rest idx, retry_ok c -> d_alive c = true ->
@@ -172,8 +165,8 @@ Section DInv.
   Lemma dispatch_ok : forall hd ex (c : dconn) typ data rest idx, retry_ok c -> d_alive c = true ->
     sw_ok data hd ex c (fst (dispatch S on_ccs dwell_time has_flight c typ data rest idx hd ex)).
   Proof.
-    intros. unfold dispatch.
-    destruct (typ =? 21)%N; [apply p_alert_ok; auto|].
+    intros. unfold dispatch, dispatch_with.
+    destruct (typ =? 21)%N; [apply (p_alert_ok hd ex); auto|].
     destruct (typ =? 20)%N; [apply p_ccs_ok; auto|].
     destruct (typ =? 23)%N; [apply p_app_ok; auto|].
     destruct (typ =? 22)%N; [apply p_hs_ok; auto|].
@@ -187,7 +180,7 @@ Section DInv.
   Definition body_ok (hd ex : bool) (body rest : bytes) (c c1 : dconn) : Prop :=
     same_hs c c1 /\ retry_ok c1 /\
     (d_alive c1 = true -> length (d_raw c1) <= length rest) /\
-    (d_hand c1 = d_hand c /\ (same_frame c c1 \/ (d_entry c1 = length (d_hand c) /\ d_frames c1 = Datatypes.S (d_frames c) /\ d_raw c1 = [])) \/
+    (d_hand c1 = d_hand c /\ same_frame c c1 \/
      (exists data, d_hand c1 = d_hand c ++ data /\ 0 < length data /\ length data <= maxPlaintext /\
                    length data <= length body /\ hd = false /\ ex = false /\ same_frame c c1 /\ d_alive c1 = true)).
 
@@ -211,7 +204,7 @@ Section DInv.
   Lemma p_body_ok : forall hd ex (c : dconn) typ epoch body rest idx, retry_ok c -> d_alive c = true ->
     body_ok hd ex body rest c (fst (p_body S on_ccs dec fresh dwell_time has_flight c typ epoch body rest idx hd ex)).
   Proof.
-    intros hd ex c typ epoch body rest idx R Ha. unfold p_body.
+    intros hd ex c typ epoch body rest idx R Ha. unfold p_body, p_body_with.
     destruct (negb (epoch =? d_epoch c)%N).
     { cbn [fst]. apply body_ok_same; hfields; auto; unfold same_hs, same_frame; hfields; auto 10. }
     destruct (dec (d_cipher c) typ body) as [data|] eqn:Ed.
@@ -234,6 +227,7 @@ Section DInv.
     set (c2 := set_raw S cr rest).
     assert (D : sw_ok data hd ex c2 (fst (dispatch S on_ccs dwell_time has_flight c2 typ data rest idx hd ex))).
     { apply dispatch_ok; unfold c2; hfields; auto. }
+    unfold dispatch in D.
     destruct D as (D1 & D2 & D3 & D4).
     assert (S2 : same_hs c c2) by (unfold c2, same_hs in *; hfields; intuition congruence).
     assert (H2 : d_hand c2 = d_hand c) by (unfold c2; hfields; congruence).
@@ -244,9 +238,7 @@ Section DInv.
     split. { unfold same_hs in *. intuition congruence. }
     split; [exact D2|]. split; [exact D3|].
     destruct D4 as [[D4 D5]|(E1 & E2 & E3 & E4 & E5 & E6)].
-    - left. split; [exact D4|]. destruct D5 as [D5|(N1 & N2 & N3 & N4)].
-      + left. unfold same_frame in *. intuition congruence.
-      + right. unfold same_frame in A2. destruct A2 as [A21 A22]. rewrite H2 in N2. rewrite A22 in N3. auto.
+    - left. split; [exact D4|]. unfold same_frame in *. intuition congruence.
     - right. exists data. unfold same_frame in *. repeat split; auto; intuition congruence.
   Qed.
 
@@ -256,7 +248,7 @@ Section DInv.
     (d_alive c1 = true ->
        length (d_raw c1) + dRecordHeaderLen <= length (d_raw c) /\
        length (d_hand c1) + length (d_raw c1) + dRecordHeaderLen <= length (d_hand c) + length (d_raw c)) /\
-    (d_hand c1 = d_hand c /\ (same_frame c c1 \/ (d_entry c1 = length (d_hand c) /\ d_frames c1 = Datatypes.S (d_frames c) /\ d_raw c1 = [])) \/
+    (d_hand c1 = d_hand c /\ same_frame c c1 \/
      (exists data, d_hand c1 = d_hand c ++ data /\ 0 < length data /\ length data <= maxPlaintext /\
                    same_frame c c1 /\ d_want c <> WApp /\ (d_want c = WCcs -> d_ccs_done c = true) /\ d_alive c1 = true)).
 
@@ -264,7 +256,7 @@ Section DInv.
     d_alive c = true -> retry_ok c -> dRecordHeaderLen <= length (d_raw c) ->
     proc_ok c (fst (process c)).
   Proof.
-    intros c Ha R Hraw. unfold ConnD.process. cbn zeta.
+    intros c Ha R Hraw. unfold ConnD.process, process_with. cbn zeta.
     set (n := N.to_nat (b16 (nth0 (d_raw c) 11) (nth0 (d_raw c) 12))).
     assert (K : proc_ok c (dkill S c)).
     { destruct R as [R1 R2]. unfold proc_ok, retry_ok, same_hs, same_frame. hfields.
@@ -290,7 +282,7 @@ Section DInv.
     assert (Ha' : d_alive c' = true) by (unfold c'; hfields; exact Ha).
     pose proof (p_body_ok (want_eqb (d_want c) WApp) (want_eqb (d_want c) WCcs && negb (d_ccs_done c))
                   c' (nth0 (d_raw c) 0) (b16 (nth0 (d_raw c) 3) (nth0 (d_raw c) 4)) body rest (d_n c) R' Ha') as B.
-    destruct B as (B1 & B2 & B3 & B4).
+    unfold p_body in B. destruct B as (B1 & B2 & B3 & B4).
     assert (E' : same_hs c c' /\ d_hand c' = d_hand c /\ same_frame c c' /\ d_want c' = d_want c /\ d_ccs_done c' = d_ccs_done c)
       by (unfold c', same_hs, same_frame; hfields; auto 15).
     destruct E' as (E1 & E2 & E3 & E4 & E5). rewrite E2 in *.
@@ -303,9 +295,7 @@ Section DInv.
       - rewrite B4. lia.
       - rewrite F1, app_length. lia. }
     destruct B4 as [[B4 B5]|(dt & F1 & F2 & F3 & F4 & F5 & F6 & F7 & F8)].
-    - left. split; [exact B4|]. destruct B5 as [B5|(N1 & N2 & N3)].
-      + left. unfold same_frame in *. intuition congruence.
-      + right. unfold same_frame in E3. destruct E3 as [E31 E32]. rewrite E32 in N2. auto.
+    - left. split; [exact B4|]. unfold same_frame in *. intuition congruence.
     - right. exists dt. repeat split; auto.
       + unfold same_frame in *. intuition congruence.
       + unfold same_frame in *. intuition congruence.
@@ -547,18 +537,19 @@ Section DInv.
   Qed.
 
   (* ---------------- the whole machine ---------------- *)
-  (* handBuf against handLenAtEntry of the running frame of readRecordOrCCS: it never shrinks inside a
-     frame; once it grew, what it gained plus what is left of the datagram stays within one datagram's
-     payload (the frame reads no other datagram); while readHandshake reads a message the frame
-     started with at most what readHandshake leaves when it waits, plus one datagram's payload per
-     frame of the retry recursion beneath it *)
+  (* handBuf against handLenAtEntry of the running call of readRecordOrCCS: it never shrinks inside a
+     call; once it grew, what it gained plus what is left of the datagram stays within one datagram's
+     payload (the call reads no other datagram); while readHandshake reads a message the call
+     started with at most what readHandshake leaves when it waits; the reader never calls itself
+     (no frame beneath the running one) *)
   Definition jinv (c : dconn) : Prop :=
+    d_frames c = 0 /\
     d_entry c <= length (d_hand c) /\
     length (d_hand c) <= d_entry c + maxCiphertext /\
     (d_alive c = true ->
        length (d_raw c) <= dgramBuf /\
        (length (d_hand c) = d_entry c \/ length (d_hand c) + length (d_raw c) <= d_entry c + maxCiphertext) /\
-       (d_want c = WMsg -> d_entry c <= handWaitD + d_frames c * maxCiphertext)).
+       (d_want c = WMsg -> d_entry c <= handWaitD)).
 
   Definition dinv (c : dconn) : Prop := hinv c /\ retry_ok c /\ jinv c.
 
@@ -574,11 +565,11 @@ Section DInv.
     intros c (H & R & J). unfold ConnD.dafter.
     destruct (d_alive c) eqn:Ea; cbn [negb].
     2:{ split; [exact (conj H (conj R J))|]. split; [reflexivity|]. intros X. rewrite Ea in X. discriminate. }
-    set (c0 := set_frames S c 0).
+    destruct J as (J0 & J1 & J3 & J). destruct (J Ea) as (J2 & _ & _). clear J.
+    set (c0 := c).
     assert (H0 : hinv c0 /\ d_alive c0 = true /\ d_raw c0 = d_raw c /\ d_retry c0 = d_retry c /\ d_frames c0 = 0).
-    { destruct H as (A1 & A2 & A3 & A4 & A5). unfold c0, hinv. hfields. repeat split; auto. }
+    { unfold c0. repeat split; auto; apply H. }
     destruct H0 as (B1 & B2 & B3 & B4 & B5).
-    destruct J as (J1 & J3 & J). destruct (J Ea) as (J2 & _ & _). clear J.
     assert (G : forall X : dconn, hinv X -> same_rec c0 X ->
                 (d_alive X = true -> d_want X = WMsg -> length (d_hand X) <= handWaitD) ->
                 dinv (enter_call S X) /\ d_raw (enter_call S X) = d_raw c /\
@@ -587,8 +578,9 @@ Section DInv.
       destruct R as [R1 R2]. destruct HX as (A1 & A2 & A3 & A4 & A5). unfold hinv. hfields.
       split.
       { split; [repeat split; auto|]. split; [split; [lia|intros; rewrite Y2, B4; auto]|].
+        split; [rewrite Y4; exact B5|].
         split; [lia|]. split; [lia|]. intros A. split; [rewrite Y1, B3; exact J2|].
-        split; [left; reflexivity|]. intros W. rewrite Y4, B5. specialize (St A W). lia. }
+        split; [left; reflexivity|]. intros W. specialize (St A W). lia. }
       split; [congruence|]. intros _. apply Nat.ltb_irrefl. }
     destruct (d_want c0) eqn:Ew.
     - destruct (ddrive_inv (dfuel S c0) c0 B1) as [I1 I2]. apply G; [exact I1|exact I2|].
@@ -613,7 +605,7 @@ Section DInv.
 
   Lemma load_inv : forall (c : dconn) d, dinv c -> d_alive c = true -> grown S c = false -> dinv (load S c d).
   Proof.
-    intros c d ((A1 & A2 & A3 & A4 & A5) & [R1 R2] & (J1 & J3 & J)) Ha Hg.
+    intros c d ((A1 & A2 & A3 & A4 & A5) & [R1 R2] & (J0 & J1 & J3 & J)) Ha Hg.
     destruct (J Ha) as (J2 & J3b & J4). unfold grown in Hg. apply Nat.ltb_ge in Hg.
     unfold load. destruct d as [|b]; [repeat split; auto|].
     pose proof (firstn_le_length dgramBuf b) as Lb.
@@ -625,20 +617,18 @@ Section DInv.
   Lemma process_inv : forall c : dconn, dinv c -> d_alive c = true -> dRecordHeaderLen <= length (d_raw c) ->
     dinv (fst (process c)).
   Proof.
-    intros c (H & R & (J1 & J3 & J)) Ha Hr. destruct (J Ha) as (J2 & J3b & J4).
+    intros c (H & R & (J0 & J1 & J3 & J)) Ha Hr. destruct (J Ha) as (J2 & J3b & J4).
     destruct (process_ok c Ha R Hr) as (P1 & P2 & P3 & P4).
     set (c1 := fst (process c)) in *.
     split; [apply (hinv_same_hs c); assumption|]. split; [exact P2|].
     assert (Ew : d_want c1 = d_want c) by (destruct P1 as (_ & _ & _ & _ & W & _); exact W).
     unfold jinv. unfold dgramBuf, maxCiphertext, handWaitD, dRecordHeaderLen in *.
-    destruct P4 as [[Q1 [[Q2 Q3]|(Q2 & Q3 & Q4)]]|(dt & Q1 & Q2 & Q3 & [Q4 Q5] & Q6 & Q7 & Q8)].
-    - rewrite Q1, Q2, Q3, Ew. split; [exact J1|]. split; [exact J3|]. intros A. destruct (P3 A) as [T1 T2].
+    destruct P4 as [[Q1 [Q2 Q3]]|(dt & Q1 & Q2 & Q3 & [Q4 Q5] & Q6 & Q7 & Q8)].
+    - rewrite Q1, Q2, Q3, Ew. split; [exact J0|]. split; [exact J1|]. split; [exact J3|]. intros A. destruct (P3 A) as [T1 T2].
       split; [lia|]. split; [|exact J4]. destruct J3b as [E|E]; [left; exact E|right; lia].
-    - rewrite Q1, Q2, Q3, Q4, Ew. split; [lia|]. split; [lia|]. intros A.
-      split; [cbn [length]; lia|]. split; [left; reflexivity|]. intros W. specialize (J4 W). lia.
     - rewrite Q4, Q5, Ew. specialize (P3 Q8). destruct P3 as [T1 T2].
       rewrite Q1 in *. rewrite app_length in *. unfold maxPlaintext in Q3.
-      split; [lia|]. split; [destruct J3b; lia|]. intros _.
+      split; [exact J0|]. split; [lia|]. split; [destruct J3b; lia|]. intros _.
       split; [lia|]. split; [right; destruct J3b; lia|exact J4].
   Qed.
 
@@ -731,7 +721,9 @@ Definition never (_ : nat) : bool := false.
 Definition drun0 := drun unit d_loop_msg d_no_ccs d_id always never false.
 Definition drun0_K12 := drun_K12 unit d_loop_msg d_no_ccs d_id always never false.
 Definition drun0_K14 := drun_K14 unit d_loop_msg d_no_ccs d_id always never false.
+Definition drun0_K15 := drun_K15 unit d_loop_msg d_no_ccs d_id always never false.
 Definition process0 := process unit d_no_ccs d_id always never false.
+Definition process0_K15 := process_K15 unit d_no_ccs d_id always never false.
 
 (* a record header: type, version 0x0101, epoch, sequence number 0, length *)
 Definition rec_hdr (typ epoch : N) (n : nat) : bytes :=
@@ -741,67 +733,74 @@ Definition rec_hdr (typ epoch : N) (n : nat) : bytes :=
 Definition st0 (raw hand : bytes) (retry n entry frames : nat) : dconn unit :=
   mkD unit true WMsg tt raw hand [] retry None false 0%N false false false 0 0 false n entry frames 1.
 
-(* ---------- K15: a warning alert re-enters readRecordOrCCS from inside its loop ---------- *)
+(* ---------- K15 (before bfc7028): a warning alert re-entered readRecordOrCCS from inside its loop ---------- *)
 (* one datagram: a handshake record of the current epoch carrying one byte; an empty handshake
    record of epoch 1; a warning alert.  The first is appended and, the next record being a
-   handshake record, the loop goes on; the second is dropped by the epoch filter; the alert makes
-   retryReadRecord call readRecordOrCCS again: the new frame takes the grown handBuf as its
-   handLenAtEntry and reads the next datagram, readHandshake is never reached, and retryCount was
-   reset by the handshake record *)
+   handshake record, the loop goes on; the second is dropped by the epoch filter; the alert made
+   retryReadRecord call readRecordOrCCS again: the new frame took the grown handBuf as its
+   handLenAtEntry and read the next datagram, readHandshake was never reached, and retryCount had
+   been reset by the handshake record *)
 Definition k15_bytes : bytes := rec_hdr 22 0 1 ++ [7%N] ++ rec_hdr 22 1 0 ++ rec_hdr 21 0 2 ++ [1; 90]%N.
 Definition k15_dgram : dgram := FromPeer k15_bytes.
 
-Lemma drun0_load : forall k (c : dconn unit) d rest,
+Lemma drun15_load : forall k (c : dconn unit) d rest,
   d_alive c = true -> length (d_raw c) <? dRecordHeaderLen = true -> grown unit c = false ->
-  drun0 (S k) c (d :: rest) = drun0 k (load unit c d) rest.
-Proof. intros k c d rest Ha Hr Hg. unfold drun0. cbn [drun]. rewrite Ha, Hr, Hg. reflexivity. Qed.
+  drun0_K15 (S k) c (d :: rest) = drun0_K15 k (load unit c d) rest.
+Proof. intros k c d rest Ha Hr Hg. unfold drun0_K15. cbn [drun_K15]. rewrite Ha, Hr, Hg. reflexivity. Qed.
 
-Lemma drun0_cont : forall k (c c1 : dconn unit) dgs,
+Lemma drun15_cont : forall k (c c1 : dconn unit) dgs,
   d_alive c = true -> length (d_raw c) <? dRecordHeaderLen = false ->
-  process0 c = (c1, Continue) ->
-  drun0 (S k) c dgs = drun0 k c1 dgs.
-Proof. intros k c c1 dgs Ha Hr Hp. unfold drun0, process0 in *. cbn [drun]. rewrite Ha, Hr, Hp. reflexivity. Qed.
+  process0_K15 c = (c1, Continue) ->
+  drun0_K15 (S k) c dgs = drun0_K15 k c1 dgs.
+Proof. intros k c c1 dgs Ha Hr Hp. unfold drun0_K15, process0_K15 in *. cbn [drun_K15]. rewrite Ha, Hr, Hp. reflexivity. Qed.
 
 Lemma K15_step : forall k rest hand retry n frames,
-  drun0 (4 + k) (st0 [] hand retry n (length hand) frames) (k15_dgram :: rest) =
-  drun0 k (st0 [] (hand ++ [7%N]) 1 (3 + n) (length (hand ++ [7%N])) (S frames)) rest.
+  drun0_K15 (4 + k) (st0 [] hand retry n (length hand) frames) (k15_dgram :: rest) =
+  drun0_K15 k (st0 [] (hand ++ [7%N]) 1 (3 + n) (length (hand ++ [7%N])) (S frames)) rest.
 Proof.
   intros. change (4 + k) with (S (S (S (S k)))).
-  rewrite drun0_load; [|reflexivity|reflexivity|apply Nat.ltb_irrefl].
-  rewrite (drun0_cont (S (S k)) _ (st0 (rec_hdr 22 1 0 ++ rec_hdr 21 0 2 ++ [1; 90]%N) (hand ++ [7%N]) 0 (1 + n) (length hand) frames));
+  rewrite drun15_load; [|reflexivity|reflexivity|apply Nat.ltb_irrefl].
+  rewrite (drun15_cont (S (S k)) _ (st0 (rec_hdr 22 1 0 ++ rec_hdr 21 0 2 ++ [1; 90]%N) (hand ++ [7%N]) 0 (1 + n) (length hand) frames));
     [|reflexivity|reflexivity|vm_compute; reflexivity].
-  rewrite (drun0_cont (S k) _ (st0 (rec_hdr 21 0 2 ++ [1; 90]%N) (hand ++ [7%N]) 0 (2 + n) (length hand) frames));
+  rewrite (drun15_cont (S k) _ (st0 (rec_hdr 21 0 2 ++ [1; 90]%N) (hand ++ [7%N]) 0 (2 + n) (length hand) frames));
     [|reflexivity|reflexivity|vm_compute; reflexivity].
-  rewrite (drun0_cont k _ (st0 [] (hand ++ [7%N]) 1 (3 + n) (length (hand ++ [7%N])) (S frames)));
+  rewrite (drun15_cont k _ (st0 [] (hand ++ [7%N]) 1 (3 + n) (length (hand ++ [7%N])) (S frames)));
     [reflexivity|reflexivity|reflexivity|vm_compute; reflexivity].
 Qed.
 
 Lemma K15_grows : forall k hand retry n frames,
   exists retry' n',
-  drun0 (4 * k + 1) (st0 [] hand retry n (length hand) frames) (repeat k15_dgram k) =
+  drun0_K15 (4 * k + 1) (st0 [] hand retry n (length hand) frames) (repeat k15_dgram k) =
   (st0 [] (hand ++ repeat 7%N k) retry' n' (length (hand ++ repeat 7%N k)) (frames + k), [], DBlocked).
 Proof.
   induction k as [|k IH]; intros.
-  - exists retry, n. cbn [repeat]. rewrite app_nil_r, Nat.add_0_r. unfold drun0. cbn [Nat.mul Nat.add drun st0 d_alive d_raw negb length Nat.ltb Nat.leb dRecordHeaderLen].
+  - exists retry, n. cbn [repeat]. rewrite app_nil_r, Nat.add_0_r. unfold drun0_K15. cbn [Nat.mul Nat.add drun_K15 st0 d_alive d_raw negb length Nat.ltb Nat.leb dRecordHeaderLen].
     unfold grown. cbn [d_entry d_hand]. rewrite Nat.ltb_irrefl. reflexivity.
   - replace (4 * S k + 1) with (4 + (4 * k + 1)) by lia. cbn [repeat]. rewrite K15_step.
     destruct (IH (hand ++ [7%N]) 1 (3 + n) (S frames)) as (r' & n' & E).
     exists r', n'. rewrite E. rewrite <- app_assoc. cbn [app]. replace (S frames + k) with (frames + S k) by lia. reflexivity.
 Qed.
 
-(* handBuf and the number of readRecordOrCCS frames exceed every bound, before the first
-   handshake message was looked at *)
-Theorem K15_unbounded : forall B, exists dgs fuel,
-  let c := fst (fst (drun0 fuel (dinit tt WMsg) dgs)) in
-  d_alive c = true /\ d_want c = WMsg /\ d_calls c = 1 /\ B < length (d_hand c) /\ B < d_frames c.
+(* before the fix handBuf and the number of readRecordOrCCS frames exceeded every bound, before the
+   first handshake message was looked at; the code as it is hands the same datagrams to
+   readHandshake one by one (which ends the connection at the twelfth: a header announcing
+   0x070707 bytes), in one frame *)
+Theorem K15_regression :
+  (forall B, exists dgs fuel,
+     let c := fst (fst (drun0_K15 fuel (dinit tt WMsg) dgs)) in
+     d_alive c = true /\ d_want c = WMsg /\ d_calls c = 1 /\ B < length (d_hand c) /\ B < d_frames c) /\
+  (let c := fst (fst (drun0 400 (dinit tt WMsg) (repeat k15_dgram 40))) in
+   d_alive c = false /\ length (d_hand c) = 12 /\ d_frames c = 0 /\ d_calls c = 1).
 Proof.
-  intros B. exists (repeat k15_dgram (S B)), (4 * S B + 1).
-  destruct (K15_grows (S B) [] 0 0 0) as (r & n & E).
-  change (dinit tt WMsg) with (st0 [] [] 0 0 (length (@nil N)) 0).
-  cbn zeta. rewrite E. cbn [fst st0 d_alive d_hand d_want d_calls d_frames].
-  repeat split; try reflexivity.
-  - rewrite app_length, repeat_length. cbn. lia.
-  - lia.
+  split.
+  - intros B. exists (repeat k15_dgram (S B)), (4 * S B + 1).
+    destruct (K15_grows (S B) [] 0 0 0) as (r & n & E).
+    change (dinit tt WMsg) with (st0 [] [] 0 0 (length (@nil N)) 0).
+    cbn zeta. rewrite E. cbn [fst st0 d_alive d_hand d_want d_calls d_frames].
+    repeat split; try reflexivity.
+    + rewrite app_length, repeat_length. cbn. lia.
+    + lia.
+  - vm_compute. repeat split; reflexivity.
 Qed.
 
 (* ---------- K14 (before 6b259b8): handBuf grows without bound inside one readRecordOrCCS call ---------- *)
@@ -916,12 +915,13 @@ Theorem d_state_bounds : forall S on_msg on_ccs dec fresh dwell_time has_flight,
   NoDup (map fst (d_pend c)) /\
   length (d_pend c) <= maxHandshakeFragments /\
   pend_bytes (d_pend c) <= maxHandshakeFragments * (64 * 1024 + 8 * 1024) /\
-  (d_alive c = true -> length (d_raw c) <= 18 * 1024 + 13).
+  (d_alive c = true -> length (d_raw c) <= 18 * 1024 + 13) /\
+  d_frames c = 0.
 Proof.
   intros S on_msg on_ccs dec fresh dwell_time has_flight Hd fuel s w dgs c.
   pose proof (drun_inv S on_msg on_ccs dec fresh dwell_time has_flight Hd fuel (dinit s w) dgs
                 (dinit_inv S on_msg on_ccs dec has_flight Hd s w)) as (H & R & J).
-  fold c in H, R, J. destruct H as (H1 & H2 & H3 & H4 & H5). destruct R as [R1 R2]. destruct J as (_ & _ & J).
+  fold c in H, R, J. destruct H as (H1 & H2 & H3 & H4 & H5). destruct R as [R1 R2]. destruct J as (J0 & _ & _ & J).
   split; [exact R1|]. split; [exact R2|]. split; [exact H1|]. split; [exact H2|].
   split.
   { eapply Forall_impl; [|exact H3]. intros kv (A & B & C & D). unfold maxHandshake in A.
@@ -930,7 +930,7 @@ Proof.
   - pose proof (pend_bytes_bound _ H3) as P. unfold maxHandshakeFragments in *.
     assert (X : length (d_pend c) * (64 * 1024 + 8 * 1024) <= 256 * (64 * 1024 + 8 * 1024)) by (apply Nat.mul_le_mono_r; exact H5).
     lia.
-  - intros A. destruct (J A) as (J2 & _). exact J2.
+  - split; [|exact J0]. intros A. destruct (J A) as (J2 & _). exact J2.
 Qed.
 
 Theorem d_progress : forall S on_msg on_ccs dec fresh dwell_time has_flight,
@@ -943,21 +943,21 @@ Proof.
 Qed.
 
 (* handBuf, for every sequence of datagrams: it exceeds its length at the entry of the running
-   frame of readRecordOrCCS by at most one datagram's payload, and while readHandshake reads a
-   message that frame started with at most 12 + 65536 - 1 bytes plus one datagram's payload per
-   frame of the retry recursion beneath it *)
+   readRecordOrCCS call by at most one datagram's payload, and while readHandshake reads a
+   message that call started with at most 12 + 65536 - 1 bytes (what readHandshake leaves when it
+   waits), so handBuf holds at most 12 + 65536 - 1 + 18432 = 83979 bytes *)
 Theorem d_handbuf : forall S on_msg on_ccs dec fresh dwell_time has_flight,
   non_expanding dec -> forall fuel (s : S) w dgs,
   let c := fst (fst (drun S on_msg on_ccs dec fresh dwell_time has_flight fuel (dinit s w) dgs)) in
   d_entry c <= length (d_hand c) /\
   length (d_hand c) <= d_entry c + 18 * 1024 /\
   (d_alive c = true -> d_want c = WMsg ->
-     d_entry c <= 12 + 64 * 1024 - 1 + d_frames c * (18 * 1024) /\
-     length (d_hand c) <= 12 + 64 * 1024 - 1 + (d_frames c + 1) * (18 * 1024)).
+     d_entry c <= 12 + 64 * 1024 - 1 /\
+     length (d_hand c) <= 12 + 64 * 1024 - 1 + 18 * 1024).
 Proof.
   intros S on_msg on_ccs dec fresh dwell_time has_flight Hd fuel s w dgs c.
   pose proof (drun_inv S on_msg on_ccs dec fresh dwell_time has_flight Hd fuel (dinit s w) dgs
-                (dinit_inv S on_msg on_ccs dec has_flight Hd s w)) as (_ & _ & (J1 & J3 & J)).
+                (dinit_inv S on_msg on_ccs dec has_flight Hd s w)) as (_ & _ & (_ & J1 & J3 & J)).
   fold c in J1, J3, J. unfold maxCiphertext, handWaitD, dHeaderLen, maxHandshakeT in *.
   split; [exact J1|]. split; [exact J3|]. intros A W. destruct (J A) as (_ & _ & J4). specialize (J4 W).
   split; [exact J4|]. lia.
